@@ -34,6 +34,14 @@ R_GENERIC, R_READ_MEMORY, R_GET_PROPERTY, R_READ_ONCE, R_READ_RESOURCE, R_KEY_BL
 )
 
 P_MAX_PACKET_SIZE = 0x0B
+C_EL2GO = 0x20
+
+
+def tp_values(tag: int, params) -> list[int]:
+    """Value words a trust-provisioning style command is answered with (1..3 words, a function of what was asked)."""
+    h = hashlib.sha256(repr((tag, tuple(params))).encode()).digest()
+    n = 1 + h[0] % 3
+    return [int.from_bytes(h[4 + 4 * i : 8 + 4 * i], "little") | 1 for i in range(n)]
 
 
 def crc16_xmodem(data: bytes) -> int:
@@ -185,6 +193,10 @@ class MbootCore:
                 return self.resp(R_READ_MEMORY, err[1], 0), None
             if tag == C_GET_PROPERTY:
                 return self.resp(R_GET_PROPERTY, err[1]), None
+            if tag in (C_TRUST_PROV, C_EL2GO) and not self.knobs.get("tp_refuse_generic"):
+                # a refused trust-provisioning command is answered in its own response format: the status, no values
+                self.fire("dev_error_tp_response")
+                return self.resp(R_TRUST_PROV, err[1]), None
             return self.generic(err[1], tag), None
         final_override = err[1] if err and err[0] == "final" else None
         try:
@@ -398,6 +410,14 @@ class MbootCore:
             return self.resp(R_READ_MEMORY, OK, length, flags=1), self._out_phase(tag, data, fo)
         if tag == C_UPDATE_LIFE_CYCLE:
             H.append(("update_life_cycle", p[0], OK))
+            return self.generic(OK if fo is None else fo, tag), None
+        if tag in (C_TRUST_PROV, C_EL2GO):
+            H.append(("tp", tag, tuple(p), OK))
+            if fo is not None:
+                return self.resp(R_TRUST_PROV, fo), None
+            return self.resp(R_TRUST_PROV, OK, *tp_values(tag, p)), None
+        if tag == C_ELE_MESSAGE:
+            H.append(("ele_message", tuple(p), OK))
             return self.generic(OK if fo is None else fo, tag), None
         H.append(("unknown", tag, tuple(p)))
         return self.generic(UNKNOWN_COMMAND, tag), None
